@@ -491,7 +491,7 @@ pub fn record(args: &[String]) -> i32 {
     for i in 0..count {
         if i % 12 == 5 {
             // targeted families that a random writer meets too rarely (one of four, in turn)
-            let fam = (i / 12) % 4;
+            let fam = (i / 12) % 6;
             let root = g.ncname();
             let e = g.ncname();
             let an = g.ncname();
@@ -556,6 +556,35 @@ pub fn record(args: &[String]) -> i32 {
                     let v: Vec<u32> = specs[g.r.gen_range(0..specs.len())].chars().map(|c| c as u32).collect();
                     toks.push(json!({"k": "doctype", "n": cp(&root), "ext": "none", "pub": [], "sys": [], "subset": true}));
                     toks.push(json!({"k": "elemdecl", "n": cp(&root), "v": cp(&v)}));
+                    toks.push(json!({"k": "dtdend"}));
+                    toks.push(json!({"k": "stag", "n": cp(&root), "attrs": [], "lex": "ok"}));
+                    toks.push(json!({"k": "etag", "n": cp(&root)}));
+                }
+                4 => {
+                    // an XML declaration whose version literal closes with the other quotation mark (and the sound one)
+                    name = "xmldecl-quotes";
+                    let lex = if g.r.gen_bool(0.7) { "mismatch" } else { "ok" };
+                    toks.push(json!({"k": "xmldecl", "ver": cp(&[49, 46, 48]), "enc": cp(&[]), "sa": "none", "lex": lex}));
+                    toks.push(json!({"k": "stag", "n": cp(&root), "attrs": [], "lex": "ok"}));
+                    toks.push(json!({"k": "etag", "n": cp(&root)}));
+                }
+                5 => {
+                    // the same attribute defined twice for one element type (in one ATTLIST or in two): the second
+                    // definition binds nothing, but its default value is still text of the document - a reference
+                    // to an entity that is not declared (or declared later) makes the document ill-formed
+                    name = "dup-attdef";
+                    let und = g.ncname();
+                    let bad = g.r.gen_bool(0.7);
+                    let dv2 = if bad { json!([{"t": "c", "c": 120}, {"t": "e", "n": cp(&und)}]) } else { json!([{"t": "c", "c": 121}]) };
+                    let d1 = json!({"n": cp(&an), "ty": "CDATA", "en": [], "dk": "VALUE", "dv": [{"t": "c", "c": 118}]});
+                    let d2 = json!({"n": cp(&an), "ty": "CDATA", "en": [], "dk": "VALUE", "dv": dv2});
+                    toks.push(json!({"k": "doctype", "n": cp(&root), "ext": "none", "pub": [], "sys": [], "subset": true}));
+                    if g.r.gen_bool(0.5) {
+                        toks.push(json!({"k": "attlist", "el": cp(&root), "defs": [d1, d2]}));
+                    } else {
+                        toks.push(json!({"k": "attlist", "el": cp(&root), "defs": [d1]}));
+                        toks.push(json!({"k": "attlist", "el": cp(&root), "defs": [d2]}));
+                    }
                     toks.push(json!({"k": "dtdend"}));
                     toks.push(json!({"k": "stag", "n": cp(&root), "attrs": [], "lex": "ok"}));
                     toks.push(json!({"k": "etag", "n": cp(&root)}));
